@@ -800,11 +800,10 @@ def _reduce_sqrt_squares(poly, prims, c, depth=0):
                 out[mono] = out.get(mono, 0) + coef
                 continue
             pid, xterm = hit
-            n, dd = _numden_term(z3.simplify(xterm), {})
-            if dd is not None:
+            xp, xprims = _poly(xterm, c, for_trig=False)
+            if any(pid in m2 for m2 in xp):
                 out[mono] = out.get(mono, 0) + coef
                 continue
-            xp, xprims = _poly(n, c, for_trig=False)
             prims.update(xprims)
             rest = list(mono)
             rest.remove(pid)
@@ -861,7 +860,7 @@ def sym_sqrt(x):
     c = ctx()
     try:
         poly, _prims = _poly(x.term(), c, for_trig=False)
-        poly = _reduce_trig(poly, c)
+        poly = _reduce_trig(_reduce_sqrt_squares(poly, _prims, c), c)
         key = ('sqrt', tuple(sorted(poly.items())))
     except Exception:
         key = ('sqrt', x.term().get_id())
